@@ -13,7 +13,7 @@ import (
 // TLS_FALLBACK_SCSV below the server's highest enabled version is refused.
 
 type c41Case struct {
-	Kind   string  `json:"kind"` // "nego" | "scsv"
+	Kind   string  `json:"kind"` // "nego" | "scsv" | "rawnego"
 	Srv    srvSpec `json:"srv"`
 	Cli    cliSpec `json:"cli"`
 	Resume bool    `json:"resume,omitempty"` // nego: second connection through a shared client session cache
@@ -189,7 +189,7 @@ func c41CheckWire(r *vkit.Run, c *c41Case, m *negoModel, f *srvFlight, res *pair
 	offered := false
 	for _, id := range cl.Suites {
 		si := suiteByID(id)
-		if id == f.Suite && si != nil && si.Std && !(si.TLS12 && cl.MaxV < vTLS12) {
+		if id == f.Suite && si != nil && (cl.Raw || (si.Std && !(si.TLS12 && cl.MaxV < vTLS12))) {
 			offered = true
 		}
 	}
@@ -312,6 +312,48 @@ func c41CheckConn(r *vkit.Run, c *c41Case, m *negoModel, res *pairResult, phase 
 	}
 }
 
+// c41RawNego: negotiation seen through a hand-written ClientHello (reaches
+// SSLv3 and suite lists crypto/tls cannot produce); only the ServerHello is
+// observed.
+func c41RawNego(r *vkit.Run, c *c41Case) {
+	m := negotiate(&c.Srv, &c.Cli)
+	cl := &c.Cli
+	hello := helloSpec{RecVer: vTLS10, Vers: cl.MaxV, SNI: cl.SNI, Suites: cl.Suites, Curves: cl.Curves, Points: true, SigAlgs: cl.MaxV >= vTLS12, ALPN: cl.ALPN}
+	if cl.MaxV == vSSL30 {
+		hello.RecVer = vSSL30
+	}
+	r.WriteAhead(c)
+	var rr *rawResult
+	if r.Try(func() interface{} { return c }, func() { rr = runRaw(buildServer(&c.Srv, nil), hello.marshalRecord()) }) {
+		return
+	}
+	if abnormal(r, rr.Hung, rr.Panic, c) {
+		return
+	}
+	f := rr.Flight
+	res := &pairResult{SrvErr: rr.SrvErr, Flight: f}
+	wit := map[string]interface{}{"case": c, "client_hello": hello, "server_flight": f, "server_err": errStr(rr.SrvErr), "model_ok": m.OK, "model_why": m.Why, "model_usable": sortedKeys(m.Usable), "model_version": m.Vers}
+	r.CaseS(c41Key(c), f.GotHello)
+	if f.ParseErr != "" {
+		r.Violation("wire:unparsable-server-flight", f.ParseErr, wit)
+		return
+	}
+	reported := c41CheckWire(r, c, &m, f, res, "raw")
+	switch {
+	case f.GotHello && !m.OK && !reported:
+		r.Violation("negotiation:server-hello-without-common-parameters", "server answered with a ServerHello although the configurations share no parameters: "+m.Why, wit)
+	case f.GotHello:
+		r.Count("raw_server_hello", 1)
+		if f.Vers == vSSL30 {
+			r.Count("raw_server_hello_ssl3", 1)
+		}
+	case m.OK && !reported:
+		r.Violation(fmt.Sprintf("availability:raw:server-alert-%d", f.AlertDesc), fmt.Sprintf("server refused a ClientHello although version %s and suites %v are mutually enabled: %v", versName(m.Vers), sortedKeys(m.Usable), rr.SrvErr), wit)
+	default:
+		r.Count("raw_refused_as_modelled", 1)
+	}
+}
+
 func c41Nego(r *vkit.Run, c *c41Case, g *vkit.Rand) {
 	m := negotiate(&c.Srv, &c.Cli)
 	scfg := buildServer(&c.Srv, nil)
@@ -329,7 +371,7 @@ func c41Nego(r *vkit.Run, c *c41Case, g *vkit.Rand) {
 	if r.Try(func() interface{} { return c }, func() { res = runPair(scfg, ccfg, toSrv, toCli) }) {
 		return
 	}
-	if hangCheck(r, res.Hung, c) {
+	if abnormal(r, res.Hung, res.Panic, c) {
 		return
 	}
 	c41CheckConn(r, c, &m, res, "first", toSrv, toCli)
@@ -348,7 +390,7 @@ func c41Nego(r *vkit.Run, c *c41Case, g *vkit.Rand) {
 		if r.Try(func() interface{} { return c }, func() { res2 = runPair(scfg, ccfg2, toSrv2, toCli2) }) {
 			return
 		}
-		if hangCheck(r, res2.Hung, c) {
+		if abnormal(r, res2.Hung, res2.Panic, c) {
 			return
 		}
 		c41CheckConn(r, c, &m, res2, "second", toSrv2, toCli2)
@@ -430,7 +472,7 @@ func c41Scsv(r *vkit.Run, c *c41Case) {
 	if r.Try(func() interface{} { return c }, func() { rr = runRaw(scfg, hello.marshalRecord()) }) {
 		return
 	}
-	if hangCheck(r, rr.Hung, c) {
+	if abnormal(r, rr.Hung, rr.Panic, c) {
 		return
 	}
 	f := rr.Flight
@@ -532,7 +574,7 @@ func c41ScsvCases() []c41Case {
 }
 
 func c41(r *vkit.Run) {
-	r.SetRule("nego: full product cert{rsa,ecdsa} x 10 server [min,max] ranges (0 = default) x 9 client ranges (TLS1.0..1.3) x 7 rules (none, A+, A, B, C, C+chacha, A+chacha) with N seeded draws per cell of server suite list/order/PreferServer/priorities/curves/ALPN/tickets and client suite subset/curves/ALPN/verification/resumption; model computed from the two configurations alone (server ranges with min>max excluded; success required only where the model is exact); 64 KiB each way. scsv: exhaustive product cert x 8 server ranges x 5 rules x client_version{ssl3,1.0,1.1,1.2} x {no session, valid ticket, valid session id} x SCSV{first,last,absent}. Non-trivial = nego: handshake completed; scsv: SCSV present and client_version below the server's highest version. Distinct = canonical string of both configurations")
+	r.SetRule("rawnego: the same server axes x client_version{ssl3,1.0,1.1,1.2} with hand-written ClientHellos (ServerHello parameters only). nego: full product cert{rsa,ecdsa} x 10 server [min,max] ranges (0 = default) x 9 client ranges (TLS1.0..1.3) x 7 rules (none, A+, A, B, C, C+chacha, A+chacha) with N seeded draws per cell of server suite list/order/PreferServer/priorities/curves/ALPN/tickets and client suite subset/curves/ALPN/verification/resumption; model computed from the two configurations alone (server ranges with min>max excluded; success required only where the model is exact); 64 KiB each way. scsv: exhaustive product cert x 8 server ranges x 5 rules x client_version{ssl3,1.0,1.1,1.2} x {no session, valid ticket, valid session id} x SCSV{first,last,absent}. Non-trivial = nego: handshake completed; scsv: SCSV present and client_version below the server's highest version. Distinct = canonical string of both configurations")
 	getPKI()
 	if r.Replay != "" {
 		var w struct {
@@ -545,6 +587,8 @@ func c41(r *vkit.Run) {
 		r.SetMinDistinct(0)
 		if w.Case.Kind == "scsv" {
 			c41Scsv(r, &w.Case)
+		} else if w.Case.Kind == "rawnego" {
+			c41RawNego(r, &w.Case)
 		} else {
 			c41Nego(r, &w.Case, r.Rng("replay"))
 		}
@@ -579,6 +623,38 @@ func c41(r *vkit.Run) {
 		c41Nego(r, &c, g)
 	})
 	r.Count("nego_cells", int64(len(cells)))
+	// hand-written hellos: client_version ssl3..1.2 x the same server axes
+	type rcell struct {
+		cert string
+		sv   [2]uint16
+		rule string
+		hv   uint16
+	}
+	var rcells []rcell
+	for _, cert := range []string{"rsa", "ecdsa"} {
+		for _, sv := range srvVerAxis {
+			for _, rule := range ruleAxis {
+				for _, hv := range []uint16{vSSL30, vTLS10, vTLS11, vTLS12} {
+					rcells = append(rcells, rcell{cert, sv, rule, hv})
+				}
+			}
+		}
+	}
+	rper := r.N(2, 30)
+	vkit.Parallel(len(rcells)*rper, workers, func(i int) {
+		ce := rcells[i/rper]
+		g := r.Rng("rawnego", i/rper, i%rper)
+		c := c41Gen(g, ce.cert, ce.sv, [2]uint16{0, ce.hv}, ce.rule)
+		c.Kind, c.Resume = "rawnego", false
+		c.Cli.Raw, c.Cli.Verify = true, false
+		if g.Chance(1, 3) {
+			c.Cli.Suites = pickSubset(g, allSuiteIDs(), 1, 2) // may include suites crypto/tls does not know
+		}
+		c41RawNego(r, &c)
+	})
+	if r.Counter("raw_server_hello_ssl3") == 0 || r.Counter("raw_refused_as_modelled") == 0 {
+		r.Inconclusive("hand-written hellos did not reach an SSLv3 ServerHello and a refusal")
+	}
 	if r.Counter("handshakes_completed") == 0 || r.Counter("refused_as_modelled") == 0 {
 		r.Inconclusive("negotiation workload did not reach both outcomes (completed and refused)")
 	}
